@@ -313,7 +313,7 @@ def run(program, ctx):
 
     ridn = ctx.rule("C05.norm", "ids/authors of a filter are normalised by the hex validator (it hands on the lower-cased, checked id): the live matcher compares them "
                     "case-sensitively while the SQL matcher does not, so un-normalised spellings make live and stored matching disagree", floor=1)
-    c01._ids_are_hex_ok(program, ctx, ridn, P)
+    c01._ids_are_hex_ok(program, ctx, ridn, P, lower=True)
     ctx.not_decided += [
         "exactly-once delivery and absence of loss under all interleavings of tasks and connections (schedule exploration is another family)",
         "check_event's set-of-booleans logic being equivalent to the stored predicates for every event (e.g. delegated authors)",
@@ -324,6 +324,10 @@ BASE = "nostr_relay/storage/base.py"
 DB = "nostr_relay/storage/db.py"
 
 MUTANTS = [
+] + [
+    M("c05-" + m.id, m.rel, m.old, m.new, "C05.replace", m.where, False, m.count) for m in __import__("sa.props.c13", fromlist=["MUTANTS"]).MUTANTS if m.expect == "C13.replace"
+] + [
+    M("c05-hex-not-lowered", BASE, "        hexid = hexid.lower()\n        if any(i not in \"abcdef0123456789\" for i in hexid):", "        if any(i not in \"abcdefABCDEF0123456789\" for i in hexid):", "C05.norm"),
     M("c05-await-in-loop", BASE, "                    self._notify_sub_tasks.append(\n                        asyncio.create_task(sub.notify(event))\n                    )\n",
       "                    await asyncio.sleep(0)\n                    self._notify_sub_tasks.append(\n                        asyncio.create_task(sub.notify(event))\n                    )\n", "C05.snapshot", canary=True),
     M("c05-stale-list", BASE, "            if self._notify_sub_tasks:\n                await asyncio.wait(self._notify_sub_tasks)\n                self._notify_sub_tasks.clear()\n            for client in self.clients.values():\n                for sub in client.values():",
